@@ -6,6 +6,7 @@ import (
 	"go/token"
 	"go/types"
 	"os"
+	"path/filepath"
 	"sort"
 	"strings"
 
@@ -19,12 +20,33 @@ import (
 // which the harness counts as failing): an analysis of a tree that does not
 // build would be meaningless.
 func load(repo string, allDeps bool) (*Ctx, error) {
+	return loadPattern(repo, "./...", allDeps)
+}
+
+// loadDir loads one package pattern from dir (used for the positive examples).
+func loadDir(dir, pattern string) (*Ctx, error) {
+	return loadPattern(dir, pattern, false)
+}
+
+// posexDir is the checker's source directory (holds testdata/posex).
+func posexDir() string {
+	if d := os.Getenv("IPNICHECK_SRC"); d != "" {
+		return d
+	}
+	exe, err := os.Executable()
+	if err == nil {
+		return filepath.Join(filepath.Dir(filepath.Dir(exe)), "checker")
+	}
+	return "/verif/checker"
+}
+
+func loadPattern(repo, pattern string, allDeps bool) (*Ctx, error) {
 	mode := packages.LoadSyntax
 	if allDeps {
 		mode = packages.LoadAllSyntax
 	}
 	cfg := &packages.Config{Mode: mode | packages.NeedModule, Dir: repo, Tests: false, Env: append(os.Environ(), "GOWORK=off")}
-	pkgs, err := packages.Load(cfg, "./...")
+	pkgs, err := packages.Load(cfg, pattern)
 	if err != nil {
 		return nil, err
 	}
